@@ -10,6 +10,9 @@
 #include "dbgroup/random/zipf.hpp"
 #include "vshim_off.hpp"
 // ---- plain C++ ----
+#include <sys/wait.h>
+#include <unistd.h>
+
 #include <cfloat>
 #include <cinttypes>
 #include <cmath>
@@ -389,9 +392,27 @@ CheckPurity(T mn, uint64_t n, double alpha, Stats &st)
     Dist moved{std::move(moved_from)};
     Dist assigned{mn, mx, alpha + 1.0};
     assigned = orig;
+    moved_from = orig;  // a moved-from object is given a value again by copy assignment
+    Dist moved_from2{orig};
+    Dist sink{std::move(moved_from2)};
+    moved_from2 = std::move(sink);  // ... and by move assignment
+    std::mt19937_64 e5{seed}, e6{seed};
     for (int i = 0; i < 48; ++i) {
-      const T a = orig(e0), b = twin(e1), c = copy(e2), d = moved(e3), f = assigned(e4);
+      T a{}, b{}, c{}, d{}, f{}, g{}, h{};
+      try {
+        a = orig(e0), b = twin(e1), c = copy(e2), d = moved(e3), f = assigned(e4), g = moved_from(e5), h = moved_from2(e6);
+      } catch (const std::exception &ex) {
+        st.Add("C19,C06", Fmt("DRAW-THROWS:%s", kIsApprox<Dist> ? "approx" : "exact"), std::string("drawing from a copied/moved/re-assigned generator threw: ") + ex.what(), cfg);
+        break;
+      }
       ++st.evaluations;
+      if (a != g || a != h || g < mn || g > mx) {
+        st.Add("C19,C06", Fmt("REASSIGNED-DIFFERS:%s", kIsApprox<Dist> ? "approx" : "exact"),
+               Fmt("draw %d with seed %" PRIu64 ": original %" PRId64 ", moved-from object after copy assignment %" PRId64 ", after move assignment %" PRId64, i, seed,
+                   static_cast<int64_t>(a), static_cast<int64_t>(g), static_cast<int64_t>(h)),
+               cfg);
+        break;
+      }
       if (a != b || a != c || a != d || a != f) {
         st.Add("C19", Fmt("SEQUENCE-DIFFERS:%s", kIsApprox<Dist> ? "approx" : "exact"),
                Fmt("draw %d with seed %" PRIu64 ": original %" PRId64 ", twin %" PRId64 ", copy %" PRId64 ", moved %" PRId64 ", assigned %" PRId64, i, seed,
@@ -424,17 +445,42 @@ void
 CheckThrow(T mn, T mx, Stats &st)
 {
   ++st.evaluations;
+  // the construction runs in a child process with a time limit: a change that accepts an inverted range may
+  // try to build an astronomically large table instead of throwing
   bool thrown = false;
-  try {
-    Dist d{mn, mx, 1.0};
-    (void)d;
-  } catch (const std::exception &) {
-    thrown = true;
+  bool timed_out = false;
+  fflush(nullptr);
+  const pid_t pid = fork();
+  if (pid == 0) {
+    int code = 1;
+    try {
+      Dist d{mn, mx, 1.0};
+      (void)d;
+    } catch (const std::exception &) {
+      code = 0;
+    }
+    _exit(code);
+  }
+  {
+    int status = 0;
+    const double t0 = vs::Now();
+    for (;;) {
+      const pid_t r = waitpid(pid, &status, WNOHANG);
+      if (r == pid) break;
+      if (vs::Now() - t0 > 5.0) {
+        kill(pid, SIGKILL);
+        waitpid(pid, &status, 0);
+        timed_out = true;
+        break;
+      }
+      usleep(2000);
+    }
+    thrown = !timed_out && WIFEXITED(status) && WEXITSTATUS(status) == 0;
   }
   if (!thrown) {
     st.Add("C19", Fmt("NO-THROW:%s", kIsApprox<Dist> ? "approx" : "exact"),
-           Fmt("constructing %s<%s>(min=%" PRId64 ", max=%" PRId64 ") did not throw", kIsApprox<Dist> ? "ApproxZipfDistribution" : "ZipfDistribution", TypeName<T>(),
-               static_cast<int64_t>(mn), static_cast<int64_t>(mx)),
+           Fmt("constructing %s<%s>(min=%" PRId64 ", max=%" PRId64 ") did not throw%s", kIsApprox<Dist> ? "ApproxZipfDistribution" : "ZipfDistribution", TypeName<T>(),
+               static_cast<int64_t>(mn), static_cast<int64_t>(mx), timed_out ? " (still constructing after 5 s)" : ""),
            Fmt("C19;throw;%s;%" PRId64 ";%" PRId64, TypeName<T>(), static_cast<int64_t>(mn), static_cast<int64_t>(mx)));
   }
 }
@@ -457,6 +503,21 @@ RunC19(Stats &st, bool thorough)
     if (!std::is_signed_v<T> && (pr.first < 0 || pr.second < 0)) continue;
     CheckThrow<T, ZipfDistribution<T>>(static_cast<T>(pr.first), static_cast<T>(pr.second), st);
     CheckThrow<T, ApproxZipfDistribution<T>>(static_cast<T>(pr.first), static_cast<T>(pr.second), st);
+  }
+  if constexpr (!std::is_signed_v<T>) {
+    // unsigned: minima in the upper half of the range (a signed helper would see them as negative)
+    const T half = static_cast<T>(T{1} << (sizeof(T) * 8 - 1));
+    for (T mn : {half, static_cast<T>(half + 5), std::numeric_limits<T>::max()})
+      for (T mx : {T{0}, T{5}, static_cast<T>(half - 1)}) {
+        CheckThrow<T, ZipfDistribution<T>>(mn, mx, st);
+        CheckThrow<T, ApproxZipfDistribution<T>>(mn, mx, st);
+      }
+  } else {
+    for (T mn : {T{0}, T{5}, std::numeric_limits<T>::max()})
+      for (T mx : {std::numeric_limits<T>::min(), static_cast<T>(-1), static_cast<T>(-1000)}) {
+        CheckThrow<T, ZipfDistribution<T>>(mn, mx, st);
+        CheckThrow<T, ApproxZipfDistribution<T>>(mn, mx, st);
+      }
   }
   CheckThrow<T, ZipfDistribution<T>>(std::numeric_limits<T>::max(), static_cast<T>(std::numeric_limits<T>::max() - 1), st);
   CheckThrow<T, ApproxZipfDistribution<T>>(std::numeric_limits<T>::max(), static_cast<T>(std::numeric_limits<T>::max() - 1), st);
@@ -762,6 +823,8 @@ main(int argc, char **argv)
         for (int part = 0; part < (thorough ? 5 : 2); ++part) jobs.push_back(vs::Job{std::string(kind) + ":" + t + ":" + std::to_string(part), ""});
     for (const char *t : {"u64", "i32"})
       for (int part = 0; part < 4; ++part) jobs.push_back(vs::Job{std::string("c06j:") + t + ":" + std::to_string(part), ""});
+    // object life cycle (copied / moved-from / re-assigned generators must still sample in range): shared with C19
+    for (const char *t : types) jobs.push_back(vs::Job{std::string("c19:") + t + ":0", ""});
   } else if (prop == "C18") {
     for (const char *kind : {"c18e", "c18a"})
       for (const char *t : types)
